@@ -169,7 +169,16 @@ fn type_src_with_layout(t: &TypeExpr, rng: &mut Rng) -> String {
 
 /// A source of any class: accepted, conflicting, every kind of error.
 fn any_source(rng: &mut Rng, seed: u64, n: u64) -> (String, String) {
-    match rng.below(13) {
+    match rng.below(15) {
+        13..=14 => {
+            // a file that stops in the middle (of a token, an attribute, a comment ...): calls that
+            // fail at different depths of the pipeline, at the very end of the text
+            let src = small_model(rng).render();
+            let cuts: Vec<usize> = src.char_indices().map(|(i, _)| i).collect();
+            let cut = if cuts.is_empty() { 0 } else { *rng.pick(&cuts) };
+            let tail = rng.pick_str(&["", "", "$", "/", "#", "#[", "#[a(", "$start", "$_", ":", "<", " //", "$enum"]);
+            ("truncated-file".into(), format!("{}{tail}", &src[..cut]))
+        }
         10..=12 => {
             // several simultaneous violations of one kind (1-2 kinds per file)
             let m = small_model(rng);
